@@ -200,6 +200,7 @@ def c05_table(ctx):
         ctx.ob("R05.7", "CreateProcess.inherit-handles", const_of(a[4]) == 1, os_start.loc(cp[0][0]), "bInheritHandles must be the constant true (got %s): otherwise the child receives none of its standard handles" % M.term_str(a[4]))
         ctx.ob("R05.7", "CreateProcess.std-handles-in-order", [comp(a[6]), comp(a[7]), comp(a[8])] == ["0", "1", "2"], os_start.loc(cp[0][0]),
                "hStdInput/hStdOutput/hStdError must be the (stdin, stdout, stderr) child ends returned by setup_streams, in that order (components %s)" % [comp(a[6]), comp(a[7]), comp(a[8])])
+        ctx.ob("R05.7", "CreateProcess.creation-flags=0", const_of(a[5]) == 0, os_start.loc(cp[0][0]), "dwCreationFlags = %s (must be 0: no debugging, suspension or detachment was requested)" % M.term_str(a[5]))
         ctx.ob("R05.7", "CreateProcess.STARTF_USESTDHANDLES", const_of(a[9]) == 0x100, os_start.loc(cp[0][0]), "dwFlags = %s (must be STARTF_USESTDHANDLES = 0x100)" % M.term_str(a[9]))
     else:
         ctx.ob("R05.7", "CreateProcess.site", False, os_start.loc(0), "expected one win32::CreateProcess call with 10 arguments")
@@ -377,3 +378,47 @@ def c06_env_block(ctx):
     # who calls it: only with the configured environment
     cs = callers_of(prog, fb.path)
     ctx.floor("R06.9", "callers of format_env_block", len(cs), 1)
+
+
+def c10_terminate(ctx):
+    """R10.6: windows terminate — TerminateProcess only on the live child's own handle; a child found to have exited is recorded
+    (not an error); nothing at all once the status is known"""
+    prog = _win(ctx)
+    if prog is None:
+        return
+    ot = prog.one("os_terminate")
+    T = M.Terms(ot)
+    st_vals = list(range(len(variants(prog, "popen::ChildState"))))
+    cs = lambda t: is_field_of_param(t, "child_state", 1)
+    run_e = variant_edges(ot, T, cs, CHILD_STATE["Running"], st_vals)
+    tp = ot.calls_to(lambda f: M.callee_str(f) == "win32::TerminateProcess")
+    ctx.floor("R10.6", "TerminateProcess sites", len(tp), 1)
+    census = [(f.path, f.loc(bb)) for f, bb, t in callers_of(prog, "win32::TerminateProcess")]
+    ctx.ob("R10.6", "TerminateProcess-only-in-os_terminate", [p for p, _ in census] == [ot.path], census[0][1] if census else "", "win32::TerminateProcess callers: %s" % [p for p, _ in census])
+    for bb, t in tp:
+        h = M.noref(T.operand(t["args"][0]))
+        want = M.contains(h, lambda u: u[0] == "downcast" and u[2] == "Running" and is_field_of_param(u[1], "child_state", 1))
+        ctx.ob("R10.6", "TerminateProcess.gated+own-handle", bool(run_e) and dominated_by_edges(ot, bb, run_e) and want, ot.loc(bb),
+               "TerminateProcess is called only under child_state == Running, on the handle stored in that state (%s)" % M.term_str(h)[:80])
+    for name, val in CHILD_STATE.items():
+        if name == "Running":
+            continue
+        ex = M.Explore(ot, assume={self_field("child_state"): val})
+        calls = [M.callee_str(t["f"]) for _, t in ex.calls() if not is_panic_call(t)]
+        vs = [v for (b, si, v, r) in result_variants(ot, ex)]
+        ctx.ob("R10.6", "os_terminate[%s].no-call+Ok" % name, not calls and vs == ["Ok"], ot.loc(0), "under child_state=%s terminate makes no OS call and returns Ok(()) (calls %s, results %s)" % (name, calls, vs))
+    # error policy: Err(err) leaves only when the failure is not ACCESS_DENIED, or the process is verifiably still active
+    ne_t = bool_edges(ot, T, lambda c: c[0] == "call" and c[1].endswith("PartialEq::ne") and M.contains(c[2][0], lambda u: u[0] == "call" and u[1] == "std::io::Error::raw_os_error")
+                      and M.contains(c[2][1], lambda u: const_of(u) == 5), True)
+    ne_t += bool_edges(ot, T, lambda c: c[0] == "call" and c[1].endswith("PartialEq::eq") and M.contains(c[2][0], lambda u: u[0] == "call" and u[1] == "std::io::Error::raw_os_error")
+                       and M.contains(c[2][1], lambda u: const_of(u) == 5), False)
+    act_t = bool_edges(ot, T, lambda c: c[0] == "bin" and c[1] == "Eq" and const_of(c[3]) == 259 and M.contains(c[2], lambda u: u[0] == "call" and u[1] == "win32::GetExitCodeProcess"), True)
+    act_f = bool_edges(ot, T, lambda c: c[0] == "bin" and c[1] == "Eq" and const_of(c[3]) == 259 and M.contains(c[2], lambda u: u[0] == "call" and u[1] == "win32::GetExitCodeProcess"), False)
+    errs = [bb for bb, si, r in aggregates_of(ot, "std::result::Result") if r["variant"] == "Err" and M.contains(T.operand(r["ops"][0]), lambda u: u[0] == "call" and u[1] == "win32::TerminateProcess")]
+    ctx.floor("R10.6", "Err(err) returns of the TerminateProcess error", len(errs), 2)
+    for bb in errs:
+        ctx.ob("R10.6", "terminate-error-policy", dominated_by_edges(ot, bb, ne_t + act_t), ot.loc(bb),
+               "the TerminateProcess error is returned only if it is not ERROR_ACCESS_DENIED, or the exit code says STILL_ACTIVE; ACCESS_DENIED on an exited process means 'already gone'")
+    fin = [b for b, si, r in aggregates_of(ot, "popen::ChildState") if r["variant"] == "Finished"]
+    ctx.ob("R10.6", "exited-child-recorded", bool(fin) and bool(act_f) and all(dominated_by_edges(ot, b, act_f) for b in fin), ot.loc(fin[0] if fin else 0),
+           "Finished(Exited(rc)) is recorded exactly when GetExitCodeProcess reports something other than STILL_ACTIVE")
